@@ -49,6 +49,9 @@ def run(ctx):
     _r8_opt_removed(ctx)
     _r9_record_header_verbatim(ctx)
     _r10_opt_emitted_with_edns(ctx)
+    # a record taken back out of the message leaves its names in the compression tree: unless the section ends there, later names
+    # are compressed against octets that are gone.  The loop shape is C04's.
+    ctx.include("C04", rules=("R3", "R2"))
 
 
 def _r8_opt_removed(ctx):
